@@ -287,6 +287,11 @@ def known_findings(prop=None):
     return out
 
 
+HANGS = []        # scenarios the harness' watchdog abandoned because they did not end (m5.read_hang, m4check.go_run)
+HANG_PROPS = {"C01": "a deploy whose targets do not become healthy must REPORT failure",
+              "C02": "every request must be answered", "C03": "the command must return and the cut-off requests be answered",
+              "C07": "every held request gets exactly one outcome", "C09": "every request must be answered (503 when no target is healthy)",
+              "C05": "racing and interleaved deploys must each return"}
 PANICS = []       # panics of the proxy observed while a scenario ran (note_panics)
 
 
@@ -329,6 +334,14 @@ class Result:
             self.known.append(what)
 
     def finish(self, level="proof"):
+        if HANGS and self.prop in HANG_PROPS and not any(sfx == "" for _, sfx in self.violations):
+            # a scenario of this check does not end on this tree (a command that never returns, a request that is never
+            # answered, a goroutine that never stops): that scenario is the failing input
+            self.violations = []
+            self.violation("hang-%s" % HANGS[0].get("index"), {
+                "property": self.prop, "seed": self.seed, "tier": self.tier,
+                "what": "this scenario does not end on the real code (virtual clock; abandoned by the real-time watchdog): "
+                        + HANG_PROPS[self.prop], "hang": json.loads(json.dumps(HANGS[0], default=lambda b: b.decode("latin1")))})
         if PANICS and not self.violations:
             self.violation("panic", {"property": self.prop, "seed": self.seed, "tier": self.tier,
                                      "what": "the proxy panicked while serving a request / executing a command of this scenario "
